@@ -355,7 +355,7 @@ def check_group_by(gmask: int, mmask: int, n: int, a0: int, d0: int, a1: int, d1
 
 
 CONDITIONS = [
-    dict(fn="check_selector", shards=(18, 36), budget=(90, 1500),
+    dict(fn="check_selector", shards=(36, 72), budget=(90, 1200),
          smoke=["check_selector(1, 0, 5, 0, False, True, False, 0, 1)",
                 "check_selector(3, 5, 0, 0, False, True, True, 0, 0)",
                 "check_selector(2, 2, 4, 0, True, True, False, 3, 2)"]),
@@ -363,7 +363,7 @@ CONDITIONS = [
          smoke=["check_filter(1, 0, 4, True, [1, -2], 1, 0, 0)"]),
     dict(fn="check_select_context", budget=(60, 300),
          smoke=["check_select_context(0, 0, True, 1, 5)", "check_select_context(1, 1, False, 2, 5)"]),
-    dict(fn="check_group_by", shards=(16, 32), budget=(80, 1500),
+    dict(fn="check_group_by", shards=(16, 32), budget=(110, 1500),
          smoke=["check_group_by(2, 1, 2, 1, 0, 5, 0, 0, 0, False)", "check_group_by(1, 4, 2, 2, 0, 1, 0, 0, 0, False)",
                 "check_group_by(4, 1, 2, 2, 1, 2, 0, 0, 0, False)", "check_group_by(1, 4, 2, 1, 1, 5, 1, 0, 0, False)", "check_group_by(1, 0, 2, 1, 1, 5, 1, 0, 0, True)"]),
 ]
